@@ -26,6 +26,7 @@ a signature look-alike; distinct = hash of F.",
     replay,
     exh: Some(exh),
     totality: true,
+    aggregate: None,
 };
 
 fn has_signature(f: &[u8]) -> bool {
